@@ -357,20 +357,27 @@ CC_SAME = {6: 4}          # resource 6 is resource 4 written in another order
 
 
 def probe_mk_key():
-    """Client._mk_key on every pair of the probe requests: equal keys exactly for the same resource."""
+    """Which requests share an entry of the client's conditional-request store, observed from outside: after a GET of
+    request i over a host that sends Last-Modified, does the GET of request j carry If-Modified-Since?  It must exactly
+    when i and j address the same resource."""
+    import logging
     from bert_e.git_host import github
-    c = github.Client('login', 'password', 'e@x.org', base_url='http://gh.test')
-    keys = [c._mk_key(c._patch_url(u), dict(p)) for u, p in CC_RES]
+    logging.disable(logging.CRITICAL)
     bad = []
-    for i in range(len(CC_RES)):
-        for j in range(len(CC_RES)):
-            same = CC_SAME.get(i, i) == CC_SAME.get(j, j)
-            try:
-                eq = keys[i] == keys[j] and hash(keys[i]) == hash(keys[j])
-            except TypeError:
-                eq = None
-            if eq is not same:
-                bad.append((i, j))
+    try:
+        for i in range(len(CC_RES)):
+            for j in range(len(CC_RES)):
+                host = _CondHost('D')
+                c = github.Client('login', 'password', 'e@x.org', base_url='http://gh.test')
+                c.session.mount('http://', host)
+                c.get(CC_RES[i][0], params=dict(CC_RES[i][1]))
+                c.get(CC_RES[j][0], params=dict(CC_RES[j][1]))
+                shared = host.conditional[-1]
+                same = CC_SAME.get(i, i) == CC_SAME.get(j, j)
+                if shared is not same:
+                    bad.append((i, j))
+    finally:
+        logging.disable(logging.NOTSET)
     return {'separates': not bad, 'pairs': len(CC_RES) ** 2, 'bad': bad[:6]}
 
 
@@ -381,6 +388,7 @@ class _CondHost:
 
     def __init__(self, mode):
         self.mode, self.clock, self.res, self.log = mode, 0, {}, []
+        self.conditional = []      # per request: did it carry a validator?
 
     @staticmethod
     def canon(url):
@@ -402,6 +410,7 @@ class _CondHost:
         mtime, content = self.res.get(key, (0, 0))
         etag = '"c%d"' % content
         inm, ims = request.headers.get('If-None-Match'), request.headers.get('If-Modified-Since')
+        self.conditional.append(bool(inm or ims))
         nm = False
         if inm:
             nm = inm == etag
@@ -536,8 +545,9 @@ Definition inflight_guard_poll_bitbucket : bool := %s.
 ''' % (coq_bool(g['suite']), coq_bool(g['poll_gh']), coq_bool(g['poll_bb']))
     k = probe_mk_key()
     ctx.extra['facts_mk_key'] = k
-    text += '''(* observed on the running code: Client._mk_key gives two of the %d probe requests the same key exactly when
-   they address the same resource (same URL, same parameter names and values) - harness/props/c17.py: probe_mk_key *)
+    text += '''(* observed on the running client: of the %d probe requests, the GET of one re-uses the stored validator of another
+   exactly when they address the same resource (same URL, same parameter names and values, any order) -
+   harness/props/c17.py: probe_mk_key *)
 Definition mk_key_separates_resources : bool := %s.
 ''' % (len(CC_RES), coq_bool(k['separates']))
     return {'Generated/Facts_C17.v': text}
